@@ -211,6 +211,13 @@ class Prop(common.PropertyCheck):
             assert fcswriter.build(first)[1]['segs']['T'] == fcswriter.build(second)[1]['segs']['T']
             yield {'k': 'file', 'spec': second, 'prelude': first}
             yield {'k': 'file', 'spec': first, 'prelude': second}
+        # whole files whose primary TEXT ends with two delimiter characters, given by name and as an open file object: loaded with the warning
+        for i in range(8):
+            d = [47, 124, 33, 12][i % 4]
+            yield {'k': 'file', 'illformed': True, 'via': ['name', 'fileobj'][(i // 4) % 2], 'spec': {
+                'version': ['FCS2.0', 'FCS3.0', 'FCS3.1'][i % 3], 'delim': chr(d), 'datatype': 'I', 'byteord': '1,2,3,4', 'widths': [8], 'ranges': [256],
+                'events': [[1], [2]], 'extra': [['K1', 'v1'], ['TUBE', 'last value']], 'stext': None, 'analysis': None, 'raw_analysis': None,
+                'order': 'TDA', 'text_trailer': chr(d), 'pad_data': 0}}
         # segments whose declared end lies 1, 2 or 5 bytes beyond the end of the buffer (the last bytes are missing): refused, whatever the remaining bytes look like
         for i in range(self.budget(60, 600)):
             d = [47, 124, 33, 12, 92][i % 5]
@@ -299,9 +306,13 @@ class Prop(common.PropertyCheck):
                             if len(odata) == len(data):
                                 with open(path, 'wb') as fh:
                                     fh.write(odata)
+                        elif case.get('via') == 'fileobj':
+                            with open(path, 'rb') as fh:
+                                f = FlowCal.io.FCSFile(fh)
                         else:
                             f = FlowCal.io.FCSFile(path)
-                        return {'text': sorted([k, v] for k, v in f.text.items()),
+                        return {'twarn': any('ill-formed TEXT segment' in str(x.message) for x in w),
+                                'text': sorted([k, v] for k, v in f.text.items()),
                                 'analysis': sorted([k, v] for k, v in f.analysis.items()),
                                 'awarn': any('ANALYSIS segment could not be parsed' in str(x.message) for x in w),
                                 'layout_pairs': layout['text_pairs']}
@@ -382,6 +393,8 @@ class Prop(common.PropertyCheck):
                 exp[k] = v
             for k, v in (spec.get('stext') or []):
                 exp[k] = v
+            if case.get('illformed') and 'exc' not in impl and not impl.get('twarn'):
+                return 'a file whose TEXT segment ends with two delimiters (given as %s) was loaded without the warning about its ill-formed ending' % case['via']
             if sorted([k, v] for k, v in exp.items()) != impl['text']:
                 return 'file TEXT read as %r, written %r' % (impl['text'], sorted(exp.items()))
             if spec.get('raw_analysis') is not None:
